@@ -70,11 +70,11 @@ func signedVal(b *big.Int, w int) *big.Int {
 }
 
 type replayGen struct {
-	L     *Loader
-	m     map[string]string
-	pkg   *types.Package
-	ok    bool
-	notes []string
+	L       *Loader
+	m       map[string]string
+	pkg     *types.Package
+	ok      bool
+	notes   []string
 	imports map[string]bool
 }
 
